@@ -1,6 +1,7 @@
 import QVerif.Model.Pipeline
 import QVerif.Lemmas.PipelineStates
 import QVerif.Lemmas.Cvar
+import QVerif.Props.C14
 
 /-!
 # C03 — circuit evaluators return the true objective through every primitive wrapper
@@ -137,6 +138,34 @@ theorem sampler_evaluateS_spec {Circ Par} (e : SamplerEval Circ Par) (ideal : SP
     simp [List.zip_map_left, List.map_map]
   · intro cp _
     exact ⟨quasi_nonneg _ _ _, quasi_mass_one _ _ _ (hshots _) h0⟩
+
+/-- **The value an evaluator returns is the CVaR of the measured distribution, up to the aggregation's resolution** — C03's
+glue and C14's aggregation theorems composed: through every sound wrapper stack and at every batch position `i`, for a tail
+fraction not within `isclose` of 1, the returned value is within `(1e-8 + 1e-5·α)·max|f| / α` of the exact CVaR ("mean of the
+objective over the lowest `α` of the probability mass", `cvar_is_min`) of the distribution `counts / shots` of circuit `i` behind
+the initial state, which is a probability distribution. -/
+theorem sampler_value_is_cvar {Circ Par} (e : SamplerEval Circ Par) (ideal : SPub Circ Par → Counts)
+    (hshots : ∀ p, countsTotal (ideal p) = p.2.2) (h0 : 0 < e.shots)
+    (P : Prim (SPub Circ Par) Counts) (hP : Pointwise P ideal) (s : Stack (SPub Circ Par)) (hs : s.Sound ideal)
+    (circuits : List Circ) (params : List Par) (M : Rat) (hM0 : 0 ≤ M) (hM : ∀ b, QVerif.Cvar.rabs (e.f b) ≤ M)
+    (ha0 : 0 < e.alpha) (hfar : QVerif.Cvar.isclose e.alpha 1 = false)
+    (i : Nat) (h1 : i < circuits.length) (h2 : i < params.length) :
+    ∃ v, (e.evaluateS (s.wrap P) circuits params)[i]? = some v ∧
+      QVerif.Cvar.NonnegProbs (quasi e.f e.shots (ideal (e.prep circuits[i], params[i], e.shots))) ∧
+      QVerif.Cvar.mass (quasi e.f e.shots (ideal (e.prep circuits[i], params[i], e.shots))) = 1 ∧
+      QVerif.Cvar.rabs (v - QVerif.Cvar.cvarExact (quasi e.f e.shots (ideal (e.prep circuits[i], params[i], e.shots))) e.alpha)
+        ≤ (QVerif.Cvar.atol + QVerif.Cvar.rtol * QVerif.Cvar.rabs e.alpha) * M / e.alpha := by
+  obtain ⟨hspec, _⟩ := sampler_evaluateS_spec e ideal hshots h0 P hP s hs circuits params
+  have hz : (circuits.zip params)[i]? = some (circuits[i], params[i]) :=
+    List.getElem?_zip_eq_some.mpr ⟨List.getElem?_eq_getElem h1, List.getElem?_eq_getElem h2⟩
+  refine ⟨QVerif.Cvar.getExpectation (quasi e.f e.shots (ideal (e.prep circuits[i], params[i], e.shots))) e.alpha, ?_,
+    quasi_nonneg _ _ _, quasi_mass_one _ _ _ (hshots _) h0, ?_⟩
+  · rw [hspec]; simp [List.getElem?_map, hz]
+  refine (QVerif.Cvar.tolerance_bound _ e.alpha M (quasi_nonneg _ _ _) hM0 ?_ ha0 hfar).1
+  intro x hx
+  simp only [quasi, List.mem_map] at hx
+  obtain ⟨c, _, rfl⟩ := hx
+  exact hM c.1
 
 /-- the coerced-pub transpiling wrapper keeps parameter values and shots: sound when the pass manager preserves the
 measured statistics -/
